@@ -118,6 +118,7 @@ pub fn run_check(prop: &str, tier: &str) -> i32 {
     match prop {
         "C01" => {
             let mut s = suites::all_suites(thorough);
+            s.extend(suites::full_ttl_suites(thorough));
             s.sort_by_key(|x| (x.name.starts_with("focus"), x.cfg.persistent));
             seq_check(prop, tier, s, &["C01"], budget, &mut report);
         }
@@ -170,7 +171,9 @@ pub fn run_check(prop: &str, tier: &str) -> i32 {
         "C08" => {
             let bound = if thorough { 3 } else { 2 };
             let progs = c08::programs(thorough);
-            schedprops::run_programs(progs, bound, 4000, budget, &schedprops::judge_linearizable, None, &["C08", "C07", "C14", "C20"], &mut report);
+            schedprops::run_programs(progs, bound, 4000, budget * 0.8, &schedprops::judge_linearizable, None, &["C08", "C07", "C14", "C20"], &mut report);
+            // sequential histories of TTL-only rewrites on a full device: without concurrency StaleExtent is never admissible
+            seq_check(prop, tier, suites::full_ttl_suites(thorough), &["C08", "C01"], budget * 0.2, &mut report);
             report.set("explanation", "controlled scheduler over application threads, the flush worker and the periodic coordinator of a real persistent store on 3-6 block devices; every read result is checked by linearization against the model (StaleExtent permitted only under a concurrent rewrite) and an I/O monitor fails the run if a device write intersects an extent a reader still holds");
         }
         "C17" => {
